@@ -54,7 +54,7 @@ ANCHORS = [
     ("deepali.losses.pointset", "ClosestPointDistance.forward"),
     ("deepali.spatial.parametric", "ParametricTransform.data_"),
 ]
-N_REPS = {"quick": 2, "thorough": 40}
+N_REPS = {"quick": 2, "thorough": 100}
 BUDGET = {"quick": 600, "thorough": 5400}
 
 
@@ -130,7 +130,8 @@ def gradcheck(ctx, name, params, evaluate, info, n_dirs=6, f32=False, key_suffix
     casts = out_f32 or cm.float32_grad_tensors > 0
     if casts and not out_f32:
         ctx.count(f"float32_inside_float64_op/{name}")
-    ladder = [(5e-3, 3e-2, 1e-4, "f32")] if casts else [(1e-6, 1e-5, 1e-9, "f64")]
+    # (float32: the smaller step is used when the measured evaluation noise allows it - fewer kinks inside the step)
+    ladder = [(1e-3, 3e-2, 1e-4, "f32"), (5e-3, 3e-2, 1e-4, "f32")] if casts else [(1e-6, 1e-5, 1e-9, "f64")]
     gnorm = float(sum((g.double() ** 2).sum() for g in grads) ** 0.5)
     scale = float(sum((p.detach().double() ** 2).sum() for p in params) ** 0.5) / max(1.0, float(sum(p.numel() for p in params)) ** 0.5) + 1e-2
     conclusive = 0
@@ -170,9 +171,18 @@ def gradcheck(ctx, name, params, evaluate, info, n_dirs=6, f32=False, key_suffix
             ref = max(abs(f1), abs(f2), abs(dd), (0.05 if tag == "f32" else 1e-3) * gnorm, 1e-12)
             # measured evaluation noise: residual of the function against its own tangent at steps far below h
             sigma = max(abs(shifted(t * hh) - s0 - t * hh * f2) for t in (1e-4, -2e-4, 3e-4))
-            noise = 2 * sigma / hh
-            if noise > 0.3 * (rtol * ref + atol) or abs(f1 - f2) > rtol * ref + atol:
-                rejected = dict(steps=tag, noise=noise, fd_h=f1, fd_h2=f2)
+            # plus the rounding quantum of the scalar itself (tiny steps may not change a float32 value at all)
+            noise = 2 * sigma / hh + (1.2e-7 if tag == "f32" else 2.3e-16) * abs(s0) / hh
+            if tag == "f32":
+                # float32 intermediates larger than the result (entropies, sums) quantise the differences: the scatter
+                # of estimates at neighbouring step sizes measures it directly
+                near = [f1, fd(0.83 * hh), fd(1.21 * hh)]
+                noise += max(near) - min(near)
+            if noise > 0.3 * (rtol * ref + atol):
+                rejected = dict(steps=tag, h=hh, noise=noise, fd_h=f1, fd_h2=f2)
+                continue  # too noisy at this step size: try the next larger one of the same precision class, if any
+            if abs(f1 - f2) > rtol * ref + atol:
+                rejected = dict(steps=tag, h=hh, noise=noise, fd_h=f1, fd_h2=f2)
                 break  # the function is not smooth within h of this point along this direction (kink): inconclusive
             decided = True
             conclusive += 1
@@ -484,8 +494,15 @@ def loss_op(ctx, name, rep, info):
         from deepali.losses import pointset as PS
 
         K = 9 if name == "landmark_point_distance" else 13
-        px = torch.tensor(rng.uniform(-1, 1, size=(N, 9, D)), dtype=torch.float32, requires_grad=True)
-        py = torch.tensor(rng.uniform(-1, 1, size=(N, K, D)), dtype=torch.float32, requires_grad=True)
+        # generic input for a nearest-neighbour term: well separated points, each with one clearly closest partner
+        # (away from the kinks where the assignment switches), plus far-away distractors
+        base = np.stack([np.stack(np.meshgrid(*[np.linspace(-0.8, 0.8, 3)] * D, indexing="ij"), -1).reshape(-1, D)[:9] for _ in range(N)])
+        xs = base + rng.uniform(-0.05, 0.05, size=base.shape)
+        ys = xs[:, rng.permutation(9)] + rng.normal(size=base.shape) * 0.04
+        if K > 9:
+            ys = np.concatenate([ys, rng.uniform(2.5, 3.5, size=(N, K - 9, D)) * rng.choice([-1, 1], size=(N, K - 9, D))], axis=1)
+        px = torch.tensor(xs, dtype=torch.float32, requires_grad=True)
+        py = torch.tensor(ys, dtype=torch.float32, requires_grad=True)
         term = PS.ClosestPointDistance() if name == "closest_point_distance" else PS.LandmarkPointDistance()
         return gradcheck(ctx, L, [px, py], lambda: term(px, py), info, f32=True)
     if name == "grad_loss":
